@@ -27,6 +27,10 @@ def name_of(t):
 
 def expected_password_reports(tree):
     """(test_id, literal, class) the statement requires; class names a known gap when bandit lacks it."""
+    return [(t, lit.encode("utf-8", "backslashreplace").decode("utf-8"), c) for t, lit, c in _expected(tree)]
+
+
+def _expected(tree):
     exp = []
     for n in ast.walk(tree):
         if isinstance(n, ast.Assign) and is_str(n.value):
